@@ -1,6 +1,6 @@
 # Configuration of ./check C10 (fields: see props.d/C06.py).
 PROP = {
-    "regen_files": ["GenGuards.v"],
+    "regen_files": ["GenGuards.v", "GenSigs.v"],
     "num": 10,
     "runs": [{"tag": "c10", "bin": "c10", "timeout": {"quick": 300, "thorough": 900}},
              # the same calls inside `const` items; a separate bin so that a compile-time
